@@ -157,7 +157,7 @@ def reads(p):
 
 def options_for(rng):
     return dict(params=rng.choice([0.0, 0.2, 0.35]), regrefs=rng.choice([0.0, 0.15]), loops=rng.choice([0.0, 0.3]), arrays=0.6, kwlists=0.5,
-                options=0.6, layout=0.0, array_params=rng.choice([0.0, 0.2]), funcs=False, tdm=rng.random() < 0.1)
+                options=0.6, layout=0.0, array_params=rng.choice([0.0, 0.2]), funcs=False, tdm=rng.random() < 0.1, opt_params=rng.choice([0.0, 0.0, 0.3]))
 
 
 def check_case(ctx, text, seed_key):
